@@ -259,6 +259,35 @@ def h11e_history(row, col, ndel, abs_form):
     assert t.cell(row, col) is t._data[row][col] and t.cell(ref) is t._data[row][col]
 
 
+def h11f_read_edit_read(row, col, op, abs_form):
+    """a cell read by A1 reference, the table edited around it, the same reference read again: both forms name the cell
+    that is at that position NOW (or both raise IndexError when the position has left the table)"""
+    R, C = 3, 3
+    assume(0 <= row < R and 0 <= col < C)
+    t = make_table(R, C)
+    ref = xl_rowcol_to_cell(row, col, abs_form, abs_form)
+    assert t.cell(ref) is t._data[row][col]
+    if op == "add_row_first":
+        t.add_row(start_row=0)
+    elif op == "delete_last_row":
+        t.delete_row(start_row=R - 1)
+    elif op == "add_col_first":
+        t.add_column(start_col=0)
+    else:
+        t.delete_column(start_col=C - 1)
+    try:
+        now = t.cell(row, col)
+    except IndexError:
+        try:
+            t.cell(ref)
+        except IndexError:
+            cover("both-rejected")
+            return
+        assert False, "A1 form still answers for a position that left the table"
+    assert t.cell(ref) is now
+    assert now is t._data[row][col] and now.row == row and now.col == col
+
+
 SHAPES = [1, 2, 3]
 
 
@@ -281,6 +310,11 @@ HARNESSES = [
                    "(symbolic); plain and '$' spelling",
             stubs=["Table over a grid of real empty cells; model stub"],
             outside=["column deletion in between", "the other position-taking methods (they share _validate_cell_coords)"]),
+    Harness("H11f", h11f_read_edit_read,
+            dict(row=IntDom(), col=IntDom(), op=Cases(["add_row_first", "delete_last_row", "add_col_first", "delete_last_col"]), abs_form=BoolDom()),
+            bounds="3x3 table, any position (symbolic), one row / column inserted first or deleted last between two reads by the same "
+                   "A1 reference",
+            stubs=["Table over a grid of real empty cells; model stub"]),
     Harness("H11c", h11c_iter,
             lambda tier: dict(R=Cases([1, 3] if tier == "quick" else [1, 2, 3, 4]), C=Cases([2] if tier == "quick" else [1, 2, 3]), mn_r=IntDom(), mx_r=IntDom(), mn_c=IntDom(), mx_c=IntDom(),
                  d_mn_r=BoolDom(), d_mx_r=BoolDom(), d_mn_c=BoolDom(), d_mx_c=BoolDom(), by_cols=Cases([False, True])),
